@@ -138,9 +138,12 @@ CLAIMS.update({
     "C19": dict(
         technique="Lean 4 theorems over the protocol model for every lock outcome and run effect + history replay with before/after snapshots",
         text="Theorem: changed = false implies the snapshot (matches, item count, pattern, stream) is identical to the one before the call, for every lock outcome, counter value and "
-             "background-run effect. Partial for 'running = false': it is only reported by a tick_inner that held the worker lock, spawned nothing and read a counter not exceeding the "
-             "worker's processed count, and if an un-cancelled run had finished the snapshot is exactly that run's result (count, pattern, stream); the remaining step (the snapshot "
-             "already equals the worker's result when no run finished since the last look) is evaluated as an oracle clause on every tick of every history.",
+             "background-run effect. 'running = false': C19_running_history - after every history of injector/clone/drop/reparse/restart(true|false)/tick (completing or timing out), "
+             "a tick that reports running = false leaves a snapshot that carries the matcher's current pattern and accounts for at least as many items as the reservation counter "
+             "showed when the deciding tick_inner read it (state invariant Inv19 - idle worker, snapshot mirrors the worker's result, worker started with the current pattern - "
+             "preserved by every event). Environment assumptions, stated as hypotheses (TickEnv): a joined background run marks itself as run and keeps pattern and stream "
+             "(proved for the model's Worker.run: Worker.run_runLike), and a run that no tick cancelled and no restart followed did not observe the cancel flag. Both clauses are "
+             "also evaluated on every tick of every replayed history.",
         note=NU_NOTE),
     "C09": dict(
         technique="Lean 4 happens-before certificates over the orderings extracted from the source + site-sequence validation on real schedules + Miri litmus programs as failing-schedule search",
